@@ -36,6 +36,11 @@ pub fn run(tier: Tier) -> i32 {
         }
     }
     part_b(&rep, tier, &all_states);
+    directed_large(&rep);
+    for slots in [1usize, 2] {
+        crate::live::live_pass(&rep, "C08", crate::live::Oracle::Conservation, slots, if tier.thorough() { 6 } else { 5 });
+    }
+    rep.assume("the snapshot-based closure merges states by the snapshot of all fields the hooks expose; state outside it is covered only by the live pass (all histories up to depth 5, thorough 6, over a 15-op alphabet)");
     rep.finish(true)
 }
 
@@ -178,4 +183,83 @@ fn part_b(rep: &Report, tier: Tier, states: &[(usize, rxmodel::St)]) {
         rep.merge(acc);
     });
     rep.part(json!({"part":"B memory-failure injection","states":picked.len(),"of":states.len(),"max_deviations":max_dev}));
+}
+
+/// Directed history the BFS cannot reach cheaply: storages larger than 65535 bytes, one of them
+/// filled to the 16-bit limit of the reassembly bookkeeping; conservation on every following call.
+fn directed_large(rep: &Report) {
+    use crate::refm::Desc;
+    let mut acc = Acc::default();
+    let mgr = mgr_std();
+    let first = Desc::first(L3A, 0x0800, 0, 0xFFFF, &vec![0x41u8; 4085]).print();
+    let inter = Desc::inter(0, &vec![0x42u8; 4094]).print();
+    let mut menu: Vec<(String, Vec<u8>)> = vec![];
+    for n in [1usize, 39, 40, 41, 100, 4094] {
+        menu.push((format!("inter-{}", n), Desc::inter(0, &vec![0x43u8; n]).print()));
+        menu.push((format!("end-{}", n), Desc::end(0, &vec![0x44u8; n], 0x0102_0304).print()));
+    }
+    menu.push(("end-crc-only".into(), Desc::end(0, &[], 0).print()));
+    menu.push(("first-restart".into(), first.clone()));
+    // every sequence of up to 3 menu packets after the filling history
+    let n = menu.len();
+    let seqs: Vec<Vec<usize>> = (0..n).flat_map(|a| std::iter::once(vec![a]).chain((0..n).flat_map(move |b| std::iter::once(vec![a, b]).chain((0..n).map(move |c| vec![a, b, c]))))).collect();
+    let results: Vec<(Acc, Vec<(String, String, Vec<String>)>)> = seqs
+        .par_chunks(64)
+        .map(|chunk| {
+            let mut acc = Acc::default();
+            let mut out = vec![];
+            for seq in chunk {
+                let mut d = RxS::new(1, 65536, &[70001, 70000]).build(DefaultCrc {}, mgr.clone());
+                let _ = do_decap(&mut d, &first);
+                for _ in 0..15 {
+                    let _ = do_decap(&mut d, &inter);
+                }
+                let mut owned: Vec<usize> = vec![];
+                let mut names = vec![];
+                for &k in seq {
+                    let before = {
+                        let mut v = MemS::of(&d.memory).buffer_lens();
+                        v.extend(owned.iter());
+                        v.sort();
+                        v
+                    };
+                    let o = do_decap(&mut d, &menu[k].1);
+                    names.push(format!("{} -> {}", menu[k].0, o.class()));
+                    acc.states += 1;
+                    acc.transitions += 1;
+                    acc.calls += 1;
+                    acc.compared += 1;
+                    acc.outcome(&format!("directed:{}:{}", menu[k].0.split('-').next().unwrap(), o.class()));
+                    match &o {
+                        DecapOut::Completed { buf, .. } => owned.push(buf.len()),
+                        DecapOut::Err { handed_back: Some(b), .. } => owned.push(b.len()),
+                        DecapOut::Panic(_) => break,
+                        _ => {}
+                    }
+                    let mut after = MemS::of(&d.memory).buffer_lens();
+                    after.extend(owned.iter());
+                    after.sort();
+                    if after != before {
+                        out.push((format!("C08|directed-large-storage|leak|{}|{}", menu[k].0.split('-').next().unwrap(), o.class()), format!("70000-byte storage holding 65495 reassembled bytes, then {:?}: buffers before {:?}, after {:?}", names, before, after), names.clone()));
+                        break;
+                    }
+                }
+            }
+            (acc, out)
+        })
+        .collect();
+    for (a, viols) in results {
+        acc.states += a.states;
+        acc.transitions += a.transitions;
+        acc.calls += a.calls;
+        acc.compared += a.compared;
+        for (k, v) in a.outcomes {
+            *acc.outcomes.entry(k).or_insert(0) += v;
+        }
+        for (sig, what, names) in viols {
+            rep.violation(&sig, names.len() as u64, || (what.clone(), json!({"history": "first fragment of 4085 bytes (total length 0xFFFF) + 15 intermediates of 4094 bytes into a 70000-byte storage", "then": names})));
+        }
+    }
+    rep.merge(acc);
+    rep.part(json!({"part":"directed: storages > 65535 bytes at the 16-bit bookkeeping limit","sequences":seqs.len(),"menu":menu.len()}));
 }
